@@ -270,6 +270,8 @@ def historyKey : Str := ['H', 'I', 'S', 'T', 'O', 'R', 'Y']
 def continueKey : Str := ['C', 'O', 'N', 'T', 'I', 'N', 'U', 'E']
 def extnameKey : Str := ['E', 'X', 'T', 'N', 'A', 'M', 'E']
 def hdunameKey : Str := ['H', 'D', 'U', 'N', 'A', 'M', 'E']
+def pcountKey : Str := ['P', 'C', 'O', 'U', 'N', 'T']
+def gcountKey : Str := ['G', 'C', 'O', 'U', 'N', 'T']
 def commentKey : Str := ['C', 'O', 'M', 'M', 'E', 'N', 'T']
 
 theorem prefix_take {h c : List Char} (hp : h.isPrefixOf c = true) : c.take h.length = h := by
@@ -496,21 +498,23 @@ theorem strncmpEq_prefix (lit key : List Char) (hl : '\x00' ∉ lit) :
       · simp [hab]
 
 theorem writeReserved_table : C16.writeReservedPrefixes = [(hierPrefix, 9)] ∧
-    C16.writeReservedExact = [endKey, historyKey, continueKey, extnameKey, hdunameKey] := by decide
+    C16.writeReservedExact = [endKey, historyKey, continueKey, extnameKey, hdunameKey, pcountKey, gcountKey] := by decide
 
 theorem writeReserved_false_iff (k : Str) :
     writeReserved k = false ↔ hierPrefix.isPrefixOf k = false ∧ k ≠ endKey ∧ k ≠ historyKey ∧ k ≠ continueKey ∧
-      k ≠ extnameKey ∧ k ≠ hdunameKey := by
+      k ≠ extnameKey ∧ k ≠ hdunameKey ∧ k ≠ pcountKey ∧ k ≠ gcountKey := by
   unfold writeReserved
   rw [writeReserved_table.1, writeReserved_table.2]
   have h9 : strncmpEq 9 (cstr hierPrefix) (cstr k) = hierPrefix.isPrefixOf k :=
     strncmpEq_prefix hierPrefix k (by decide)
   simp only [List.any_cons, List.any_nil, Bool.or_false, h9, Bool.or_eq_false_iff, beq_eq_false_iff_ne, ne_eq]
   constructor
-  · rintro ⟨h1, h2, h3, h4, h5, h6⟩
-    exact ⟨h1, fun x => h2 x.symm, fun x => h3 x.symm, fun x => h4 x.symm, fun x => h5 x.symm, fun x => h6 x.symm⟩
-  · rintro ⟨h1, h2, h3, h4, h5, h6⟩
-    exact ⟨h1, fun x => h2 x.symm, fun x => h3 x.symm, fun x => h4 x.symm, fun x => h5 x.symm, fun x => h6 x.symm⟩
+  · rintro ⟨h1, h2, h3, h4, h5, h6, h7, h8⟩
+    exact ⟨h1, fun x => h2 x.symm, fun x => h3 x.symm, fun x => h4 x.symm, fun x => h5 x.symm, fun x => h6 x.symm,
+      fun x => h7 x.symm, fun x => h8 x.symm⟩
+  · rintro ⟨h1, h2, h3, h4, h5, h6, h7, h8⟩
+    exact ⟨h1, fun x => h2 x.symm, fun x => h3 x.symm, fun x => h4 x.symm, fun x => h5 x.symm, fun x => h6 x.symm,
+      fun x => h7 x.symm, fun x => h8 x.symm⟩
 
 theorem badShortChar_false_iff (c : Char) : badShortChar c = false ↔ (c.isUpper || c.isDigit) = true := by
   unfold badShortChar
@@ -642,7 +646,7 @@ theorem validate_none_iff (key val : Str) :
 theorem validate_plain (key val : Str) (h : validate key val = none) : PlainKey key ∧ PlainVal val := by
   obtain ⟨_, he, hw, hshort, hlong, hv⟩ := (validate_none_iff key val).mp h
   obtain ⟨h1, h2, h3⟩ := (edgeBlank_false_iff key).mp he
-  obtain ⟨h4, h5, h6, h7, _, _⟩ := (writeReserved_false_iff key).mp hw
+  obtain ⟨h4, h5, h6, h7, _, _, _, _⟩ := (writeReserved_false_iff key).mp hw
   refine ⟨⟨h1, h2, h3, h4, h5, h6, h7, ?_⟩, hv⟩
   by_cases hlen : key.length ≤ 8
   · exact fun c hc => (alnum_facts c ((hshort hlen).1 c hc)).1
